@@ -6,9 +6,12 @@ import (
 	"time"
 	"unicode/utf8"
 
+	"github.com/emersion/go-sasl"
 	smtp "github.com/emersion/go-smtp"
 	"verif/h"
 )
+
+var _ sasl.Client = goodClient{}
 
 // C14: envelope and options survive the client-to-server trip unchanged.
 
@@ -20,7 +23,18 @@ type C14Case struct {
 	Mail  *MailO `json:"mail,omitempty"`
 	Rcpt  *RcptO `json:"rcpt,omitempty"`
 	TLS   bool   `json:"tls,omitempty"`
+	// Route: what happened on the connection before the judged transaction: "" nothing | "second" an earlier
+	// transaction with every option set to other values, then Reset | "auth-second" the same after a successful Auth
+	Route string `json:"route,omitempty"`
+	// Limit: the server's MaxMessageBytes (0: none); a declared Size up to the limit is legal there
+	Limit int64 `json:"limit,omitempty"`
 }
+
+// goodClient authenticates with the backend's one-step mechanism.
+type goodClient struct{}
+
+func (goodClient) Start() (string, []byte, error) { return "ONE", []byte("good"), nil }
+func (goodClient) Next([]byte) ([]byte, error)    { return nil, nil }
 
 type MailO struct {
 	Size       int64
@@ -88,7 +102,7 @@ func evalC14(c C14Case) (*h.Finding, string) {
 	var f *h.Finding
 	outcome := ""
 	desc := fmt.Sprintf("field=%s value=%q serverUTF8=%t", c.Field, c.Value, c.UTF8)
-	cfg := h.Config{DSN: true, RRVS: true, RequireTLS: true, BinaryMIME: true, UTF8: c.UTF8, AllowInsecureAuth: true}
+	cfg := h.Config{DSN: true, RRVS: true, RequireTLS: true, BinaryMIME: true, UTF8: c.UTF8, AllowInsecureAuth: true, MaxMessageBytes: c.Limit}
 	be := &h.Backend{Auth: true, Mechs: saslMechs, NewSASL: newSASL}
 	var mo *smtp.MailOptions
 	var ro *smtp.RcptOptions
@@ -125,10 +139,32 @@ func evalC14(c C14Case) (*h.Finding, string) {
 			mo = &smtp.MailOptions{UTF8: true}
 		}
 	}
-	var mailErr, rcptErr error
+	if c.Route != "" || c.Limit != 0 {
+		desc += fmt.Sprintf(" route=%q serverlimit=%d", c.Route, c.Limit)
+	}
+	var mailErr, rcptErr, preErr error
+	n0 := 0
 	leak, pan := h.Bubble(func() {
 		h.WithRealServer(cfg, be, c.TLS, func(cs *h.CS) {
 			cl := cs.Client
+			if c.Route != "" {
+				if c.Route == "auth-second" {
+					if preErr = cl.Auth(goodClient{}); preErr != nil {
+						return
+					}
+				}
+				prevAuth := "prev@p.example"
+				if preErr = cl.Mail("ok@prev.example", &smtp.MailOptions{Size: 5, Return: smtp.DSNReturnHeaders, EnvelopeID: "prev", Auth: &prevAuth, UTF8: c.UTF8, RequireTLS: c.TLS}); preErr != nil {
+					return
+				}
+				if preErr = cl.Rcpt("ok@prevr.example", &smtp.RcptOptions{Notify: []smtp.DSNNotify{smtp.DSNNotifyDelayed}, OriginalRecipientType: smtp.DSNAddressTypeRFC822, OriginalRecipient: "prev@o.example", RequireRecipientValidSince: time.Unix(1e9, 0)}); preErr != nil {
+					return
+				}
+				if preErr = cl.Reset(); preErr != nil {
+					return
+				}
+				n0 = len(be.Trace())
+			}
 			mailErr = cl.Mail(from, mo)
 			if mailErr != nil {
 				return
@@ -142,8 +178,11 @@ func evalC14(c C14Case) (*h.Finding, string) {
 	if leak != "" {
 		return h.F("c14-deadlock", "%s: %.200s", desc, leak), ""
 	}
+	if preErr != nil {
+		return h.F("c14-earlier-transaction", "%s: the earlier transaction on the connection failed: %v", desc, preErr), ""
+	}
 	var mail, rcpt *h.Event
-	tr := be.Trace()
+	tr := be.Trace()[n0:]
 	for i := range tr {
 		switch tr[i].Kind {
 		case "Mail":
@@ -273,7 +312,7 @@ func C14(tier string) int {
 		strLen, asciiLen = 4, 3
 		wireScalarsTo = 0x10ffff
 	}
-	run.Rule = fmt.Sprintf("(a) codec pairs called directly: decodeXtext(encodeXtext(s)) for ALL strings of <=%d octets over the 128 ASCII octets; utf-8-addr-xtext and -unitext pairs for EVERY Unicode scalar value individually; (b) over the wire (real Client.Mail/Rcpt -> real server, all extensions on, SMTPUTF8 on/off): ALL strings of <=%d symbols over %q as EnvelopeID, Auth (with '@d.example' appended), ORCPT rfc822 and ORCPT utf-8; every scalar up to U+%X (and every UTF-8 length / surrogate boundary +-2) inside a utf-8 ORCPT; (c) option subsets: all 2^4 NOTIFY subsets in two orders, RET, SIZE {0,1,2^31}, SMTPUTF8, REQUIRETLS over implicit TLS, RRVS times with zones, Auth nil / empty / mailbox, address forms. Distinct by construction; non-trivial = value in the judged domain (printable ASCII; for utf-8 ORCPT also DEL and non-ASCII; for Auth mailbox-shaped ASCII). Oracle: options seen by Session.Mail/Rcpt == options given; 'refused locally by the client' is fine, 'refused by the server' or 'different' is a violation inside the judged domain.", asciiLen, strLen, c14Alphabet, wireScalarsTo)
+	run.Rule = fmt.Sprintf("(a) codec pairs called directly: decodeXtext(encodeXtext(s)) for ALL strings of <=%d octets over the 128 ASCII octets; utf-8-addr-xtext and -unitext pairs for EVERY Unicode scalar value individually; (b) over the wire (real Client.Mail/Rcpt -> real server, all extensions on, SMTPUTF8 on/off): ALL strings of <=%d symbols over %q as EnvelopeID, Auth (with '@d.example' appended), ORCPT rfc822 and ORCPT utf-8; every scalar up to U+%X (and every UTF-8 length / surrogate boundary +-2) inside a utf-8 ORCPT; (c) option subsets: all 2^4 NOTIFY subsets in two orders, RET, SIZE {0,1,2^31}, SMTPUTF8, REQUIRETLS over implicit TLS, RRVS times with zones, Auth nil / empty / mailbox, address forms; every option subset also as the SECOND transaction of a connection (after a transaction with other values and Reset, with and without a successful AUTH before it) and, for SIZE, against a server whose limit is exactly that size or one more. Distinct by construction; non-trivial = value in the judged domain (printable ASCII; for utf-8 ORCPT also DEL and non-ASCII; for Auth mailbox-shaped ASCII). Oracle: options seen by Session.Mail/Rcpt == options given; 'refused locally by the client' is fine, 'refused by the server' or 'different' is a violation inside the judged domain.", asciiLen, strLen, c14Alphabet, wireScalarsTo)
 	run.Assumptions = []string{"Body is excluded: the client documents that it always sends BODY=8BITMIME", "RRVS compared to the second", "values outside the judged domain (control characters, non-ASCII in xtext fields, non-mailbox Auth) are executed but only counted"}
 
 	// (a) codec pairs
@@ -374,6 +413,7 @@ func C14(tier string) int {
 			for _, rrvs := range []string{"", "2014-04-03T23:01:00Z", "1999-12-31T23:59:59+05:30", "2030-06-01T00:00:00-08:00"} {
 				for _, oc := range []struct{ t, a string }{{"", ""}, {"RFC822", "orig@o.example"}, {"UTF-8", "orig+é@o.example"}} {
 					cases = append(cases, C14Case{Field: "rcptopts", UTF8: mask%2 == 0, Rcpt: &RcptO{Notify: s, OType: oc.t, ORcpt: oc.a, RRVS: rrvs}})
+					cases = append(cases, C14Case{Field: "rcptopts", UTF8: mask%2 == 0, Rcpt: &RcptO{Notify: s, OType: oc.t, ORcpt: oc.a, RRVS: rrvs}, Route: "auth-second"})
 				}
 			}
 		}
@@ -385,7 +425,15 @@ func C14(tier string) int {
 				for _, auth := range []*string{nil, &empty, &box} {
 					for _, u8 := range []bool{false, true} {
 						for _, rtls := range []bool{false, true} {
-							cases = append(cases, C14Case{Field: "mailopts", UTF8: true, TLS: rtls, Mail: &MailO{Size: size, RequireTLS: rtls, UTF8: u8, Return: ret, EnvelopeID: envid, Auth: auth}})
+							m := &MailO{Size: size, RequireTLS: rtls, UTF8: u8, Return: ret, EnvelopeID: envid, Auth: auth}
+							cases = append(cases, C14Case{Field: "mailopts", UTF8: true, TLS: rtls, Mail: m})
+							for _, route := range []string{"second", "auth-second"} {
+								cases = append(cases, C14Case{Field: "mailopts", UTF8: true, TLS: rtls, Mail: m, Route: route})
+							}
+							if size > 0 {
+								// a server with a size limit: a declared size up to the limit is legal
+								cases = append(cases, C14Case{Field: "mailopts", UTF8: true, TLS: rtls, Mail: m, Limit: size}, C14Case{Field: "mailopts", UTF8: true, TLS: rtls, Mail: m, Limit: size + 1})
+							}
 						}
 					}
 				}
